@@ -68,7 +68,15 @@ def state_table(ctx):
     for ra in (LIVE, TOMB):
         for rb in (LIVE, TOMB):
             key = f"{short(ra,1)},{short(rb,1)}"
-            arm = M.select_arm(m, (ra, rb))
+            guards = []
+            # a tombstone row must be decided by the two states alone: a guarded arm is reported and then skipped, so that the
+            # arm the row falls through to is judged as well
+            arm = M.select_arm(m, (ra, rb), (lambda g: guards.append(g) or False) if TOMB in (ra, rb) else None)
+            if guards:
+                ctx.violation(R, fn["fn"], f"row:{key}:unconditional",
+                              f"(State, State) row ({key}) is decided under a guard (`{ex_s(guards[0])[:80]}`): whether the tombstone wins depends on more than the two "
+                              "states — a tombstone must beat every live state of the same uuid, otherwise a deleted entry stays live on one replica",
+                              file=fn["file"], line=guards[0].get("line"))
             if not ctx.check(arm is not None, R, fn["fn"], f"row:{key}:covered", "row covered", "no arm accepts this row (shape not understood)", file=fn["file"], line=m.get("line")):
                 continue
             if TOMB not in (ra, rb):
